@@ -15,7 +15,7 @@ func init() {
 	register(&Property{
 		ID:          "C02",
 		Explanation: "Decided for all paths: FSM.Apply/ApplyBatch/StoreConfiguration/Restore/Snapshot are invoked only by the FSM goroutine's closures (plus start-up restore before any goroutine exists and the RecoverCluster override); the FSM queue has three frozen senders and one receiver and every dynamic type sent has a case in the receiver's type switch; processLogs returns early for indexes already applied, walks lastApplied+1..index in steps of one, panics on a log read error (never skips), forwards every prepared entry to a batch, flushes the last batch and only then publishes lastApplied=index; every processLogs call passes an index that was just published as commit index (follower: min(leaderCommit,lastIndex) after the previous-entry check; leader: only in-flight indexes not beyond the tracker's commit index; start-up: clamped staged index); InstallSnapshot updates applied/snapshot position only after the snapshot is durable and the FSM restored it; prepareLog has a case for every LogType and hands only Command/Barrier/Configuration entries to the FSM.",
-		NotDecided:  "that entries at one index are identical across servers (that is C03/C04 behaviourally) and that a restored snapshot's content equals the agreed history; R4 does not prove that indexes <= getLastIndex() were all verified against the leader after an InstallSnapshot that left a stale tail (see C12 known finding).",
+		NotDecided:  "that entries at one index are identical across servers (that is C03/C04 behaviourally) and that a restored snapshot's content equals the agreed history; (R4 now requires the follower's commit bound to be the last index the accepted request covered – defect F9, fixed in 36fc10b.)",
 		RuleText:    "C02.R1 who-may tables of the FSM interface methods; R2 sender/receiver tables and type agreement on fsmMutateCh; R3 loop-shape rules in processLogs; R4 provenance/guard of every processLogs argument; R5 = C04.R1; R6 install ordering; R7 LogType exhaustiveness in prepareLog.",
 		Run:         c02,
 	})
@@ -412,7 +412,8 @@ func c02R4(c *Ctx, rule string) {
 			}})
 			c.RequireAt(r, rule, name+":apply-up-to-published-commit", s.Instr, "processLogs(x) is called with the very value just passed to setCommitIndex", func(v engine.View) bool { return v.Seen("published") })
 			if name == "(*Raft).appendEntries" {
-				c.Check(rule, name+":commit-clamped", c.P.InstrPos(s.Instr), "x = min(a.LeaderCommitIndex, getLastIndex())", arg == "min(p2.LeaderCommitIndex, recv.raftState.getLastIndex())", "x = "+arg, 1)
+				okB, whyB := followerCommitBound(c, s.Fn, engine.ArgValue(s.Instr, 0))
+				c.Check(rule, name+":commit-clamped", c.P.InstrPos(s.Instr), "x = min(a.LeaderCommitIndex, last index covered by this request): only entries this request verified against the leader are handed to the FSM (defect F9)", okB, whyB, 2)
 				c.Check(rule, name+":no-futures", c.P.InstrPos(s.Instr), "followers pass no futures", c.P.Arg(s.Instr, 1) == "nil", "futures = "+c.P.Arg(s.Instr, 1), 1)
 			}
 		case "(*Raft).leaderLoop":
